@@ -72,6 +72,10 @@ pub struct Outcome {
 
 fn main() {
     let args: Vec<String> = std::env::args().collect();
+    if args.len() >= 5 && args[1] == "stdin-oligo" {
+        p_rows::stdin_child(&args[2..]);
+        return;
+    }
     if args.len() < 2 {
         eprintln!("usage: verif_replay <cmd> [--seed N] [--tier T] [--input JSON]");
         std::process::exit(2);
